@@ -233,6 +233,15 @@ def check(ctx):
             ctx.ob("P7", "%s %s" % (name, q.what), False, where=loc(q.node, "src/mqtt/pdu.py:%d" % c.node.lineno), function="mqtt.pdu.%s" % name,
                    construct="mqtt.pdu.%s/%s" % (name, q.what),
                    msg="the %s codec does not put / read a field where the wire format has it: %s" % (name, q.msg))
+        if name in ("PUBLISH", "PUBREL"):
+            from .c01 import header_skip
+            _pp, _ff = check_primitives(a.prog)
+            appl, okh, ln, msgh = header_skip(decm, _ff)
+            if appl:
+                ctx.ob("P7", "%s.decode skips the fixed header with decodeLength's continuation bit" % name, okh,
+                       where="src/mqtt/pdu.py:%d" % (ln or c.node.lineno), function="mqtt.pdu.%s.decode" % name,
+                       construct="mqtt.pdu.%s/header-skip" % name, msg="the %s decoder starts reading the body at the wrong place for packets whose "
+                       "remaining length takes more than one byte: %s" % (name, msgh))
         if not bad:
             ctx.ob("P7", "%s: every field is read / written at its wire position" % name, True, where="src/mqtt/pdu.py:%d" % c.node.lineno,
                    construct="mqtt.pdu.%s/layout" % name, nontrivial=False)
